@@ -520,7 +520,7 @@ theorem fronts_append (pre : List Op) (op : Op) : Spec.fronts (pre ++ [op]) = Sp
 theorem input_not_key {op : Op} (hwf : OpWF op) (hp : PlainOp op) : "Input" ∉ op.indexKeys := by
   rw [mem_indexKeys_iff]
   rintro (h | h | h)
-  · rcases hp.labels _ h with h | h <;> exact absurd h (by decide)
+  · exact hp.labels _ h (by decide)
   · have : op.kind = .input := by
       cases hk : op.kind <;> rw [hk] at h <;> first | rfl | exact absurd h (by decide)
     exact hwf.not_input this
